@@ -595,6 +595,8 @@ class Keyvalues:
                 if single_block and cur_block is root:
                     # Single-block mode - we just exited out of the main block.
                     # Return our child.
+                    if not root._value:
+                        raise tokenizer.error('The block was disabled by its flag!')
                     return root[0]
                 # We know this isn't a leaf KV, we made it earlier.
                 assert not isinstance(cur_block._value, str)
